@@ -31,6 +31,21 @@ def SimFields (fns : List FnDef) (n : Nat) : Prop :=
       ∃ σ1, ExecC σ code t (.normal σ1) ∧ σ1 (.t k) = .recd (pre ++ fs) ∧ Agree env' σ1 ∧ Frame k σ σ1) ∧
     (∀ t v, evalInts fns n env es = ⟨t, .ret v⟩ → ExecC σ code t (.returned v))
 
+/-- a guard chain against the arms it was built from -/
+def SimChain (fns : List FnDef) (n : Nat) : Prop :=
+  ∀ (arms : Arms) (env : Env) (sel : Sel) (ke tb idx c : Nat) (steps : List GStep) (c' : Nat) (σ : Store) (v : Val)
+    (ko cA : Nat) (codes : List Code) (cA' c0 : Nat),
+    lowerChain arms sel (.t ke) tb idx c = some (steps, c') → lowerArms arms (.t ko) cA = some (codes, cA') →
+    Agree env σ → σ (.t ke) = v → (discOf v).isSome → ke < c0 → c0 ≤ c → c0 ≤ cA → c0 ≤ ko → ko < cA →
+    (∀ p, p ∈ patsOf arms → selects sel p = patMatches v p) →
+    (∀ t env' r, evalArms fns n env v arms = ⟨t, .ok (env', r)⟩ →
+      ∃ a σ1 t1 code σ2 t2, ExecG σ steps t1 (.selected (idx + a) σ1) ∧ codes[a]? = some code ∧
+        ExecC σ1 code t2 (.normal σ2) ∧ σ2 (.t ko) = r ∧ t = t1 ++ t2 ∧ Agree env' σ2 ∧ Frame c0 σ σ2) ∧
+    (∀ t w, evalArms fns n env v arms = ⟨t, .ret w⟩ →
+      ExecG σ steps t (.returned w) ∨
+      ∃ a σ1 t1 code t2, ExecG σ steps t1 (.selected (idx + a) σ1) ∧ codes[a]? = some code ∧
+        ExecC σ1 code t2 (.returned w) ∧ t = t1 ++ t2)
+
 def SimSeq (fns : List FnDef) (n : Nat) : Prop :=
   ∀ (b : Block) (env : Env) (c : Nat) (code : Code) (x : Var) (c' : Nat) (σ : Store),
     lowerBlock b c = some (code, x, c') → Agree env σ →
@@ -92,7 +107,7 @@ theorem SimE.ret {fns n} (hE : SimE fns n) {e env c code value c1 σ t v}
 theorem R.ok_eq {α} (a : α) : (R.ok a : R α) = ⟨[], .ok a⟩ := rfl
 
 theorem simE_step {fns n} (hE : SimE fns n) (hA : SimArgs fns n) (hF : SimFields fns n) (hB : SimBlock fns n)
-    (hW : SimWhile fns n) :
+    (hW : SimWhile fns n) (hC : SimChain fns n) :
     SimE fns (n + 1) := by
   intro e env c code value c' σ hl ha
   cases e with
@@ -732,7 +747,132 @@ theorem simE_step {fns n} (hE : SimE fns n) (hA : SimArgs fns n) (hF : SimFields
             simpa [List.append_assoc] using this
         | _ => simp [R.stuck] at h2'
   | call f args => simp [lowerE] at hl
-  | mtch s arms => simp [lowerE] at hl
+  | mtch s isOpt arms =>
+    obtain ⟨hds, ce, ve, c1, ch0, c0, ch1, c1', ch2, c2, dflt, c3, codes, h1, h2, h3, h4, h5, h6, rfl, rfl⟩ := lowerE_mtch_inv hl
+    have ⟨m1, b1⟩ := lowerE_mono s c ce ve c1 h1
+    have ⟨a1, ke, hke, hke'⟩ := atv_spec ve c1 b1
+    have m2 := lowerChain_mono arms _ _ _ _ _ ch0 c0 h2
+    have m3 := lowerChain_mono arms _ _ _ _ _ ch1 c1' h3
+    have m4 := lowerChain_mono arms _ _ _ _ _ ch2 c2 h4
+    have m5 := lowerChain_mono arms _ _ _ _ _ dflt c3 h5
+    rw [hke] at h2 h3 h4 h5
+    -- the chain the switch selects is the chain of the examinee's variant
+    have chain : ∀ (v : Val) (k : Nat), examineeOk isOpt v = true → discOf v = some k →
+        ∃ sel cx cx', lowerChain arms sel (.t ke) (if isOpt then 0 else 10) 0 cx
+            = some (findChain ((if (discsOf arms).contains 0 then [GChain.mk 0 ch0] else [])
+                ++ (if (discsOf arms).contains 1 then [GChain.mk 1 ch1] else [])
+                ++ (if (discsOf arms).contains 2 then [GChain.mk 2 ch2] else [])) dflt k, cx')
+          ∧ atvNext ve c1 + 1 ≤ cx ∧ (∀ p, p ∈ patsOf arms → selects sel p = patMatches v p) := by
+      intro v k hok hk
+      have hk3 : k < (if isOpt then 2 else 3) := by
+        cases v with
+        | opt o => cases o <;> simp_all [examineeOk, discOf] <;> omega
+        | enm kk fs => simp_all [examineeOk, discOf]
+        | _ => simp [examineeOk] at hok
+      have hpm : ∀ k' bs, patMatches v (.variant k' bs) = (k == k') := by
+        intro k' bs; simp [patMatches, hk]
+      by_cases hmem : k ∈ discsOf arms
+      · -- the variant has a chain of its own
+        have hsel : ∀ p, p ∈ patsOf arms → selects (.variant k) p = patMatches v p := by
+          intro p _; cases p with
+          | wild => simp [selects, patMatches]
+          | variant k' bs => rw [hpm]; simp [selects]
+        have hk012 : k = 0 ∨ k = 1 ∨ k = 2 := by split at hk3 <;> omega
+        rcases hk012 with rfl | rfl | rfl
+        · exact ⟨.variant 0, atvNext ve c1 + 1, c0, by simpa [hmem, findChain] using h2, by omega, hsel⟩
+        · refine ⟨.variant 1, c0, c1', ?_, by omega, hsel⟩
+          by_cases h0 : (0 : Nat) ∈ discsOf arms <;> simpa [hmem, h0, findChain] using h3
+        · refine ⟨.variant 2, c1', c2, ?_, by omega, hsel⟩
+          by_cases h0 : (0 : Nat) ∈ discsOf arms <;> by_cases h1' : (1 : Nat) ∈ discsOf arms <;>
+            simpa [hmem, h0, h1', findChain] using h4
+      · -- no chain of its own: the default chain (the `_` arms)
+        have hnc : ¬ ((List.range (if isOpt then 2 else 3)).all (fun k => (discsOf arms).contains k) = true) := by
+          intro hall
+          simp only [List.all_eq_true, List.mem_range] at hall
+          exact hmem (by simpa using hall k hk3)
+        have hfind : findChain ((if (discsOf arms).contains 0 then [GChain.mk 0 ch0] else [])
+                ++ (if (discsOf arms).contains 1 then [GChain.mk 1 ch1] else [])
+                ++ (if (discsOf arms).contains 2 then [GChain.mk 2 ch2] else [])) dflt k = dflt := by
+          by_cases h0 : (0 : Nat) ∈ discsOf arms <;> by_cases h1' : (1 : Nat) ∈ discsOf arms <;>
+            by_cases h2' : (2 : Nat) ∈ discsOf arms <;> simp [h0, h1', h2', findChain] <;>
+            (repeat (first | (intro hh; subst hh; contradiction) | (split <;> try (exfalso; subst_vars; contradiction)) | rfl))
+        rw [hfind]
+        by_cases hw : hasWild arms = true
+        · have hex : ∃ x, (x < if isOpt = true then 2 else 3) ∧ ¬ x ∈ discsOf arms := ⟨k, hk3, hmem⟩
+          refine ⟨.wildOnly, c2, c3, by simpa [hw, hex] using h5, by omega, ?_⟩
+          intro p hp; cases p with
+          | wild => simp [selects, patMatches]
+          | variant k' bs =>
+            rw [hpm]; simp only [selects]
+            have : k' ∈ discsOf arms := mem_discsOf arms k' bs hp
+            have hne' : k ≠ k' := fun h => hmem (h ▸ this)
+            have : (k == k') = false := by simp [hne']
+            simp [this]
+        · refine ⟨.off, c2, c3, by simpa [hw] using h5, by omega, ?_⟩
+          intro p hp; cases p with
+          | wild => exact absurd hp (not_hasWild arms (by simpa using hw))
+          | variant k' bs =>
+            rw [hpm]; simp only [selects]
+            have : k' ∈ discsOf arms := mem_discsOf arms k' bs hp
+            have hne' : k ≠ k' := fun h => hmem (h ▸ this)
+            have : (k == k') = false := by simp [hne']
+            simp [this]
+    have m6 := lowerArms_mono arms _ _ codes c' h6
+    have hne : Var.t ke ≠ .t (atvNext ve c1) := by intro h; cases h; omega
+    constructor
+    · intro t env' w h
+      simp only [evalExpr, bind_eq, bind_ok_iff] at h
+      obtain ⟨t1, ⟨env1, v⟩, t2, hel, h2', rfl⟩ := h
+      obtain ⟨σ1, hx1, hv1, ha1, hf1⟩ := hE.mat h1 ha hel
+      rw [hke] at hv1
+      by_cases hok : examineeOk isOpt v = true
+      · simp only [hok, if_true] at h2'
+        have hd : (discOf v).isSome := by
+          cases v <;> simp_all [examineeOk, discOf]
+          rename_i o; cases o <;> simp
+        obtain ⟨k, hk⟩ := Option.isSome_iff_exists.mp hd
+        obtain ⟨sel, cx, cx', hch, hcx, hsel⟩ := chain v k hok hk
+        have s1 : ExecS σ1 (.assign (.t (atvNext ve c1)) (.disc (.t ke))) [] (.normal (σ1.set (.t (atvNext ve c1)) (.int k))) :=
+          .assign (by simp [evalValue, hv1, hk])
+        have hxe2 : (σ1.set (.t (atvNext ve c1)) (.int k)) (.t ke) = v := by rw [set_other _ _ hne, hv1]
+        obtain ⟨a, σ2, tg, code, σ3, tb', hg, hcode, hxb, hr, rfl, ha3, hf3⟩ :=
+          (hC arms env1 sel ke _ 0 cx _ cx' (σ1.set (.t (atvNext ve c1)) (.int k)) v c3 (c3 + 1) codes c'
+            (atvNext ve c1 + 1) hch h6 (ha1.set_tmp _ _) hxe2 hd (by omega) hcx (by omega) (by omega) (by omega) hsel).1 t2 env' w h2'
+        have s2 := ExecS.mtchArm (d := .t (atvNext ve c1)) (k := k) (set_same _ _ _) (by simpa using hg) hcode hxb
+        refine ⟨σ3, t1 ++ (tg ++ tb'), [], ?_, by simp [evalValue, hr], by simp, ha3,
+          (hf1.trans (Frame.set_tmp _ _ (by omega)) (Nat.le_refl _)).trans (hf3.mono (c := c) (by omega)) (Nat.le_refl _)⟩
+        have := ExecC.append hx1 (ExecC.cons s1 (ExecC.single s2))
+        rw [hke]
+        simpa [List.append_assoc] using this
+      · simp [hok, R.stuck] at h2'
+    · intro t w h
+      simp only [evalExpr, bind_eq, bind_ret_iff] at h
+      rcases h with h | ⟨t1, ⟨env1, v⟩, t2, hel, h2', rfl⟩
+      · have := hE.ret h1 ha h
+        simpa [List.append_assoc] using ExecC.append_ret _ this
+      · obtain ⟨σ1, hx1, hv1, ha1, hf1⟩ := hE.mat h1 ha hel
+        rw [hke] at hv1
+        by_cases hok : examineeOk isOpt v = true
+        · simp only [hok, if_true] at h2'
+          have hd : (discOf v).isSome := by
+            cases v <;> simp_all [examineeOk, discOf]
+            rename_i o; cases o <;> simp
+          obtain ⟨k, hk⟩ := Option.isSome_iff_exists.mp hd
+          obtain ⟨sel, cx, cx', hch, hcx, hsel⟩ := chain v k hok hk
+          have s1 : ExecS σ1 (.assign (.t (atvNext ve c1)) (.disc (.t ke))) [] (.normal (σ1.set (.t (atvNext ve c1)) (.int k))) :=
+            .assign (by simp [evalValue, hv1, hk])
+          have hxe2 : (σ1.set (.t (atvNext ve c1)) (.int k)) (.t ke) = v := by rw [set_other _ _ hne, hv1]
+          have hres := (hC arms env1 sel ke _ 0 cx _ cx' (σ1.set (.t (atvNext ve c1)) (.int k)) v c3 (c3 + 1) codes c'
+            (atvNext ve c1 + 1) hch h6 (ha1.set_tmp _ _) hxe2 hd (by omega) hcx (by omega) (by omega) (by omega) hsel).2 t2 w h2'
+          rw [hke]
+          rcases hres with hg | ⟨a, σ2, tg, code, tb', hg, hcode, hxb, rfl⟩
+          · have s2 := ExecS.mtchGuardRet (d := .t (atvNext ve c1)) (k := k) (arms := codes) (set_same _ _ _) hg
+            have := ExecC.append hx1 (ExecC.cons s1 (ExecC.consRet (rest := []) s2))
+            simpa [List.append_assoc] using this
+          · have s2 := ExecS.mtchArm (d := .t (atvNext ve c1)) (k := k) (set_same _ _ _) (by simpa using hg) hcode hxb
+            have := ExecC.append hx1 (ExecC.cons s1 (ExecC.single s2))
+            simpa [List.append_assoc] using this
+        · simp [hok, R.stuck] at h2'
   | «for» x l b => simp [lowerE] at hl
   | ctor k args => simp [lowerE] at hl
   | record fs =>
@@ -916,6 +1056,167 @@ theorem simFields_step {fns n} (hE : SimE fns n) (hF : SimFields fns n) : SimFie
           · simp [pure_eq, R.ok] at h4
         | _ => simp [R.stuck] at h2'
 
+theorem frame_of_tmps {c : Nat} {σ σ1 : Store} (h : ∀ k, σ1 (.t k) = σ (.t k)) : Frame c σ σ1 := fun k _ => h k
+
+theorem simChain_step {fns n} (hE : SimE fns n) (hB : SimBlock fns n) (hC : SimChain fns n) : SimChain fns (n + 1) := by
+  intro arms env sel ke tb idx c steps c' σ v ko cA codes cA' c0 hl hla ha hv hd hke hc hcA hko hko' hsel
+  cases arms with
+  | nil =>
+    exact ⟨fun t env' r h => by simp [evalArms, R.stuck] at h, fun t w h => by simp [evalArms, R.stuck] at h⟩
+  | arm p body rest =>
+    simp [lowerArms, Option.bind_eq_some_iff] at hla
+    obtain ⟨cb, xb, cA1, hb1, cs, hla', rfl⟩ := hla
+    have ⟨mb, _⟩ := lowerBlock_mono body cA cb xb cA1 hb1
+    have hp := hsel p (by simp [patsOf])
+    have hrest : ∀ q, q ∈ patsOf rest → selects sel q = patMatches v q := fun q hq => hsel q (by simp [patsOf, hq])
+    simp only [lowerChain] at hl
+    by_cases hm : patMatches v p = true
+    · -- the arm is taken
+      rw [hm] at hp
+      simp [hp, Option.bind_eq_some_iff] at hl
+      obtain ⟨st, hl', rfl⟩ := hl
+      constructor
+      · intro t env' r h
+        simp only [evalArms, hm, if_true] at h
+        cases hbp : bindPat env v p with
+        | none => simp [hbp, R.stuck] at h
+        | some env1 =>
+          simp only [hbp, bind_eq, bind_ok_iff] at h
+          obtain ⟨t1, ⟨env2, r'⟩, t2, hbody, h2, rfl⟩ := h
+          simp [pure_eq, R.ok] at h2
+          obtain ⟨rfl, rfl, rfl⟩ := h2
+          obtain ⟨σ1, hx1, ha1, hk1⟩ := exec_patBinds (tb := tb) p v env env1 σ hv hd hbp ha
+          obtain ⟨σ2, hx2, hv2, ha2, hf2⟩ := (hB body env1 cA cb xb cA1 σ1 hb1 ha1).1 t1 env2 r' hbody
+          refine ⟨0, σ1, [], cb ++ [.assign (.t ko) (.move xb)], σ2.set (.t ko) r', t1, .plain hx1, by simp, ?_, by simp,
+            by simp, ha2.leave.set_tmp _ _, ?_⟩
+          · simpa using ExecC.append hx2 (ExecC.assign1 (x := .t ko) (v := .move xb) (t := []) (val := r')
+              (by simp [evalValue, hv2]))
+          · exact ((frame_of_tmps hk1).trans (hf2.mono hcA) (Nat.le_refl _)).trans (Frame.set_tmp _ _ hko) (Nat.le_refl _)
+      · intro t w h
+        simp only [evalArms, hm, if_true] at h
+        cases hbp : bindPat env v p with
+        | none => simp [hbp, R.stuck] at h
+        | some env1 =>
+          simp only [hbp, bind_eq, bind_ret_iff] at h
+          obtain ⟨σ1, hx1, ha1, hk1⟩ := exec_patBinds (tb := tb) p v env env1 σ hv hd hbp ha
+          rcases h with h | ⟨t1, ⟨env2, r'⟩, t2, hbody, h2, rfl⟩
+          · have hr := (hB body env1 cA cb xb cA1 σ1 hb1 ha1).2 t w h
+            exact Or.inr ⟨0, σ1, [], cb ++ [.assign (.t ko) (.move xb)], t, .plain hx1, by simp, ExecC.append_ret _ hr, by simp⟩
+          · simp [pure_eq, R.ok] at h2
+    · -- the arm is skipped
+      have hm' : patMatches v p = false := by simpa using hm
+      rw [hm'] at hp
+      simp [hp] at hl
+      have IH := hC rest env sel ke tb (idx + 1) c steps c' σ v ko cA1 cs cA' c0 hl hla' ha hv hd hke hc (by omega) hko
+        (by omega) hrest
+      constructor
+      · intro t env' r h
+        simp only [evalArms, hm', Bool.false_eq_true, if_false] at h
+        obtain ⟨a, σ1, t1, code, σ2, t2, hg, hcode, hx, hr, ht, ha2, hf2⟩ := IH.1 t env' r h
+        exact ⟨a + 1, σ1, t1, code, σ2, t2, by simpa [Nat.add_assoc, Nat.add_comm 1 a] using hg, by simpa using hcode,
+          hx, hr, ht, ha2, hf2⟩
+      · intro t w h
+        simp only [evalArms, hm', Bool.false_eq_true, if_false] at h
+        rcases IH.2 t w h with hg | ⟨a, σ1, t1, code, t2, hg, hcode, hx, ht⟩
+        · exact Or.inl hg
+        · exact Or.inr ⟨a + 1, σ1, t1, code, t2, by simpa [Nat.add_assoc, Nat.add_comm 1 a] using hg, by simpa using hcode, hx, ht⟩
+  | armG p g body rest =>
+    simp [lowerArms, Option.bind_eq_some_iff] at hla
+    obtain ⟨cb, xb, cA1, hb1, cs, hla', rfl⟩ := hla
+    have ⟨mb, _⟩ := lowerBlock_mono body cA cb xb cA1 hb1
+    have hp := hsel p (by simp [patsOf])
+    have hrest : ∀ q, q ∈ patsOf rest → selects sel q = patMatches v q := fun q hq => hsel q (by simp [patsOf, hq])
+    simp only [lowerChain] at hl
+    by_cases hm : patMatches v p = true
+    · rw [hm] at hp
+      simp [hp, Option.bind_eq_some_iff] at hl
+      obtain ⟨cg, vg, c1, hg1, st, hl', rfl⟩ := hl
+      have ⟨mg, bg⟩ := lowerE_mono g c cg vg c1 hg1
+      have ⟨ag, _⟩ := atv_spec vg c1 bg
+      constructor
+      · intro t env' r h
+        simp only [evalArms, hm, if_true] at h
+        cases hbp : bindPat env v p with
+        | none => simp [hbp, R.stuck] at h
+        | some env1 =>
+          simp only [hbp, bind_eq, bind_ok_iff] at h
+          obtain ⟨tg, ⟨env2, gv⟩, t2, hguard, h2, rfl⟩ := h
+          obtain ⟨σ1, hx1, ha1, hk1⟩ := exec_patBinds (tb := tb) p v env env1 σ hv hd hbp ha
+          obtain ⟨σ2, hx2, hv2, ha2, hf2⟩ := hE.mat hg1 ha1 hguard
+          cases gv with
+          | bool bg =>
+            cases bg with
+            | true =>
+              simp only [bind_eq, bind_ok_iff] at h2
+              obtain ⟨t3, ⟨env3, r'⟩, t4, hbody, h4, rfl⟩ := h2
+              simp [pure_eq, R.ok] at h4
+              obtain ⟨rfl, rfl, rfl⟩ := h4
+              obtain ⟨σ3, hx3, hv3, ha3, hf3⟩ := (hB body env2 cA cb xb cA1 σ2 hb1 ha2).1 t3 env3 r' hbody
+              refine ⟨0, σ2, tg, cb ++ [.assign (.t ko) (.move xb)], σ3.set (.t ko) r', t3, ?_, by simp, ?_, by simp,
+                by simp, ha3.leave.set_tmp _ _, ?_⟩
+              · simpa using ExecG.guardTrue (a := idx) (rest := st) hx1 hx2 hv2
+              · simpa using ExecC.append hx3 (ExecC.assign1 (x := .t ko) (v := .move xb) (t := []) (val := r')
+                  (by simp [evalValue, hv3]))
+              · exact (((frame_of_tmps hk1).trans (hf2.mono hc) (Nat.le_refl _)).trans (hf3.mono hcA) (Nat.le_refl _)).trans
+                  (Frame.set_tmp _ _ hko) (Nat.le_refl _)
+            | false =>
+              have hxe2 : σ2 (.t ke) = v := by rw [hf2 ke (by omega), hk1 ke, hv]
+              have IH := hC rest (leave env env2) sel ke tb (idx + 1) (atvNext vg c1) st c' σ2 v ko cA1 cs cA' c0 hl' hla'
+                ha2.leave hxe2 hd hke (by omega) (by omega) hko (by omega) hrest
+              obtain ⟨a, σ3, t3, code, σ4, t4, hg, hcode, hx, hr, rfl, ha4, hf4⟩ := IH.1 t2 env' r h2
+              refine ⟨a + 1, σ3, tg ++ t3, code, σ4, t4, ?_, by simpa using hcode, hx, hr, by simp, ha4,
+                ((frame_of_tmps hk1).trans (hf2.mono hc) (Nat.le_refl _)).trans hf4 (Nat.le_refl _)⟩
+              have := ExecG.guardFalse (a := idx) hx1 hx2 hv2 hg
+              simpa [Nat.add_assoc, Nat.add_comm 1 a] using this
+          | _ => simp [R.stuck] at h2
+      · intro t w h
+        simp only [evalArms, hm, if_true] at h
+        cases hbp : bindPat env v p with
+        | none => simp [hbp, R.stuck] at h
+        | some env1 =>
+          simp only [hbp, bind_eq, bind_ret_iff] at h
+          obtain ⟨σ1, hx1, ha1, hk1⟩ := exec_patBinds (tb := tb) p v env env1 σ hv hd hbp ha
+          rcases h with h | ⟨tg, ⟨env2, gv⟩, t2, hguard, h2, rfl⟩
+          · -- the guard leaves the function
+            have hr := ExecC.append_ret (atvCode vg c1) (hE.ret hg1 ha1 h)
+            exact Or.inl (by simpa using ExecG.guardRet (g := atvVar vg c1) (a := idx) (rest := st) hx1 hr)
+          · obtain ⟨σ2, hx2, hv2, ha2, hf2⟩ := hE.mat hg1 ha1 hguard
+            cases gv with
+            | bool bg =>
+              cases bg with
+              | true =>
+                simp only [bind_eq, bind_ret_iff] at h2
+                rcases h2 with h2 | ⟨t3, ⟨env3, r'⟩, t4, hbody, h4, rfl⟩
+                · have hr := (hB body env2 cA cb xb cA1 σ2 hb1 ha2).2 t2 w h2
+                  exact Or.inr ⟨0, σ2, tg, cb ++ [.assign (.t ko) (.move xb)], t2,
+                    by simpa using ExecG.guardTrue (a := idx) (rest := st) hx1 hx2 hv2, by simp, ExecC.append_ret _ hr, rfl⟩
+                · simp [pure_eq, R.ok] at h4
+              | false =>
+                have hxe2 : σ2 (.t ke) = v := by rw [hf2 ke (by omega), hk1 ke, hv]
+                have IH := hC rest (leave env env2) sel ke tb (idx + 1) (atvNext vg c1) st c' σ2 v ko cA1 cs cA' c0 hl' hla'
+                  ha2.leave hxe2 hd hke (by omega) (by omega) hko (by omega) hrest
+                rcases IH.2 t2 w h2 with hg | ⟨a, σ3, t3, code, t4, hg, hcode, hx, rfl⟩
+                · exact Or.inl (by simpa using ExecG.guardFalse (a := idx) hx1 hx2 hv2 hg)
+                · refine Or.inr ⟨a + 1, σ3, tg ++ t3, code, t4, ?_, by simpa using hcode, hx, by simp⟩
+                  have := ExecG.guardFalse (a := idx) hx1 hx2 hv2 hg
+                  simpa [Nat.add_assoc, Nat.add_comm 1 a] using this
+            | _ => simp [R.stuck] at h2
+    · have hm' : patMatches v p = false := by simpa using hm
+      rw [hm'] at hp
+      simp [hp] at hl
+      have IH := hC rest env sel ke tb (idx + 1) c steps c' σ v ko cA1 cs cA' c0 hl hla' ha hv hd hke hc (by omega) hko
+        (by omega) hrest
+      constructor
+      · intro t env' r h
+        simp only [evalArms, hm', Bool.false_eq_true, if_false] at h
+        obtain ⟨a, σ1, t1, code, σ2, t2, hg, hcode, hx, hr, ht, ha2, hf2⟩ := IH.1 t env' r h
+        exact ⟨a + 1, σ1, t1, code, σ2, t2, by simpa [Nat.add_assoc, Nat.add_comm 1 a] using hg, by simpa using hcode,
+          hx, hr, ht, ha2, hf2⟩
+      · intro t w h
+        simp only [evalArms, hm', Bool.false_eq_true, if_false] at h
+        rcases IH.2 t w h with hg | ⟨a, σ1, t1, code, t2, hg, hcode, hx, ht⟩
+        · exact Or.inl hg
+        · exact Or.inr ⟨a + 1, σ1, t1, code, t2, by simpa [Nat.add_assoc, Nat.add_comm 1 a] using hg, by simpa using hcode, hx, ht⟩
 theorem simSeq_step {fns n} (hE : SimE fns n) (hS : SimSeq fns n) : SimSeq fns (n + 1) := by
   intro b env c code x c' σ hl ha
   cases b with
@@ -1051,9 +1352,9 @@ theorem simWhile_step {fns n} (hE : SimE fns n) (hB : SimBlock fns n) (hW : SimW
       | _ => simp [R.stuck] at h2'
 
 theorem sim_all (fns : List FnDef) :
-    ∀ n, SimE fns n ∧ SimArgs fns n ∧ SimSeq fns n ∧ SimBlock fns n ∧ SimWhile fns n ∧ SimFields fns n
+    ∀ n, SimE fns n ∧ SimArgs fns n ∧ SimSeq fns n ∧ SimBlock fns n ∧ SimWhile fns n ∧ SimFields fns n ∧ SimChain fns n
   | 0 => by
-    refine ⟨?_, ?_, ?_, ?_, ?_, ?_⟩
+    refine ⟨?_, ?_, ?_, ?_, ?_, ?_, ?_⟩
     · intro e env c code value c' σ _ _
       exact ⟨fun t env' v h => by simp [evalExpr, R.fuel] at h, fun t v h => by simp [evalExpr, R.fuel] at h⟩
     · intro es env c code tmps c' σ _ _
@@ -1066,10 +1367,12 @@ theorem sim_all (fns : List FnDef) :
       exact ⟨fun t env' v h => by simp [evalWhile, R.fuel] at h, fun t v h => by simp [evalWhile, R.fuel] at h⟩
     · intro es env k i c code c' σ pre _ _ _ _ _
       exact ⟨fun t env' v h => by simp [evalInts, R.fuel] at h, fun t v h => by simp [evalInts, R.fuel] at h⟩
+    · intro arms env sel ke tb idx c steps c' σ v ko cA codes cA' c0 _ _ _ _ _ _ _ _ _ _ _
+      exact ⟨fun t env' r h => by simp [evalArms, R.fuel] at h, fun t w h => by simp [evalArms, R.fuel] at h⟩
   | n + 1 => by
-    obtain ⟨hE, hA, hS, hB, hW, hF⟩ := sim_all fns n
-    exact ⟨simE_step hE hA hF hB hW, simArgs_step hE hA, simSeq_step hE hS, simBlock_step hS, simWhile_step hE hB hW,
-      simFields_step hE hF⟩
+    obtain ⟨hE, hA, hS, hB, hW, hF, hC⟩ := sim_all fns n
+    exact ⟨simE_step hE hA hF hB hW hC, simArgs_step hE hA, simSeq_step hE hS, simBlock_step hS, simWhile_step hE hB hW,
+      simFields_step hE hF, simChain_step hE hB hC⟩
 
 
 /-! ### the structured MIR is deterministic -/
@@ -1130,6 +1433,52 @@ theorem ExecS.det : ∀ {σ : Store} {s : Stm} {t t' : Trace} {o o' : Outcome},
   | _, _, _, _, _, _, .iteDElse _ _ h, .iteDElse _ _ h' => ExecC.det h h'
   | _, _, _, _, _, _, .iteDThen e _, .iteDElse e' ne _ => by rw [e] at e'; cases e'; exact (ne rfl).elim
   | _, _, _, _, _, _, .iteDElse e ne _, .iteDThen e' _ => by rw [e] at e'; cases e'; exact (ne rfl).elim
+  | _, _, _, _, _, _, .mtchArm e g a x, .mtchArm e' g' a' x' => by
+    rw [e] at e'; cases e'
+    obtain ⟨rfl, h⟩ := ExecG.det g g'; cases h
+    rw [a] at a'; cases a'
+    obtain ⟨rfl, h⟩ := ExecC.det x x'; exact ⟨rfl, h⟩
+  | _, _, _, _, _, _, .mtchArm e g _ _, .mtchGuardRet e' g' => by
+    rw [e] at e'; cases e'
+    obtain ⟨_, h⟩ := ExecG.det g g'; cases h
+  | _, _, _, _, _, _, .mtchGuardRet e g, .mtchArm e' g' _ _ => by
+    rw [e] at e'; cases e'
+    obtain ⟨_, h⟩ := ExecG.det g g'; cases h
+  | _, _, _, _, _, _, .mtchGuardRet e g, .mtchGuardRet e' g' => by
+    rw [e] at e'; cases e'
+    obtain ⟨rfl, h⟩ := ExecG.det g g'; cases h; exact ⟨rfl, rfl⟩
+theorem ExecG.det : ∀ {σ : Store} {st : List GStep} {t t' : Trace} {o o' : GOut},
+    ExecG σ st t o → ExecG σ st t' o' → t = t' ∧ o = o'
+  | _, _, _, _, _, _, .plain b, .plain b' => by
+    obtain ⟨rfl, h⟩ := ExecC.det b b'; cases h; exact ⟨rfl, rfl⟩
+  | _, _, _, _, _, _, .guardTrue b g e, .guardTrue b' g' e' => by
+    obtain ⟨rfl, h⟩ := ExecC.det b b'; cases h
+    obtain ⟨rfl, h⟩ := ExecC.det g g'; cases h; exact ⟨rfl, rfl⟩
+  | _, _, _, _, _, _, .guardTrue b g e, .guardFalse b' g' e' _ => by
+    obtain ⟨_, h⟩ := ExecC.det b b'; cases h
+    obtain ⟨_, h⟩ := ExecC.det g g'; cases h; rw [e] at e'; cases e'
+  | _, _, _, _, _, _, .guardTrue b g e, .guardRet b' g' => by
+    obtain ⟨_, h⟩ := ExecC.det b b'; cases h
+    obtain ⟨_, h⟩ := ExecC.det g g'; cases h
+  | _, _, _, _, _, _, .guardFalse b g e r, .guardTrue b' g' e' => by
+    obtain ⟨_, h⟩ := ExecC.det b b'; cases h
+    obtain ⟨_, h⟩ := ExecC.det g g'; cases h; rw [e] at e'; cases e'
+  | _, _, _, _, _, _, .guardFalse b g e r, .guardFalse b' g' e' r' => by
+    obtain ⟨rfl, h⟩ := ExecC.det b b'; cases h
+    obtain ⟨rfl, h⟩ := ExecC.det g g'; cases h
+    obtain ⟨rfl, h⟩ := ExecG.det r r'; exact ⟨rfl, h⟩
+  | _, _, _, _, _, _, .guardFalse b g e r, .guardRet b' g' => by
+    obtain ⟨_, h⟩ := ExecC.det b b'; cases h
+    obtain ⟨_, h⟩ := ExecC.det g g'; cases h
+  | _, _, _, _, _, _, .guardRet b g, .guardTrue b' g' e' => by
+    obtain ⟨_, h⟩ := ExecC.det b b'; cases h
+    obtain ⟨_, h⟩ := ExecC.det g g'; cases h
+  | _, _, _, _, _, _, .guardRet b g, .guardFalse b' g' e' _ => by
+    obtain ⟨_, h⟩ := ExecC.det b b'; cases h
+    obtain ⟨_, h⟩ := ExecC.det g g'; cases h
+  | _, _, _, _, _, _, .guardRet b g, .guardRet b' g' => by
+    obtain ⟨rfl, h⟩ := ExecC.det b b'; cases h
+    obtain ⟨rfl, h⟩ := ExecC.det g g'; cases h; exact ⟨rfl, rfl⟩
 theorem ExecC.det : ∀ {σ : Store} {c : Code} {t t' : Trace} {o o' : Outcome},
     ExecC σ c t o → ExecC σ c t' o' → t = t' ∧ o = o'
   | _, _, _, _, _, _, .nil, .nil => ⟨rfl, rfl⟩
